@@ -261,7 +261,7 @@ def _regex_fallback(ck, fi):
     return fb
 
 
-def eval_read_body(ck, fi, code, cl, te, limit=1000):
+def eval_read_body(ck, fi, code, cl, te, limit=1000, is_client=True):
     ps = [p for p in fi.params() if p != "self"]
     if len(ps) != 3:
         raise AnalysisError("_read_body: expected (code, headers, delegate)")
@@ -272,7 +272,8 @@ def eval_read_body(ck, fi, code, cl, te, limit=1000):
         "re.split": lambda st, pat=None, s=None, *a: (__import__("re").split(pat, s) if isinstance(pat, str) and isinstance(s, str) else UNK),
     })
     ev.fallback = _regex_fallback(ck, fi)
-    me = Obj("self", is_client=True, _max_body_size=limit, params=Obj("params", max_body_size=limit))
+    # only the live field carries the limit: the configured value and the buffer size are decoys
+    me = Obj("self", is_client=is_client, _max_body_size=limit, params=Obj("params", max_body_size=10 ** 6), stream=Obj("stream", max_buffer_size=10 ** 6))
     outs = ev.run(fi.node, {"self": me, ps[0]: code, ps[1]: _resp_headers(cl, te), ps[2]: UNK})
     res = set()
     for o in outs:
@@ -420,67 +421,41 @@ def check_limits(ck):
     _c04.check_content_length(ck, LIVE, R="C08.reader-limit")
     _c04.check_chunked(ck, LIVE, R="C08.reader-limit")
     R = "C08.reader-limit"
-    fi = _F(ck, H1, "HTTP1Connection._read_body_until_close")
-    cfg = fi.cfg
-    reads = [(n, c) for n, c in call_sites(fi, ".read_until_close")]
-    ck.floor(R, len(reads), 1, "read_until_close calls")
-    vars_ = {n.ast.targets[0].id for n, c in reads if isinstance(n.ast, ast.Assign) and isinstance(n.ast.targets[0], ast.Name)}
-    if not vars_:
-        raise AnalysisError("_read_body_until_close: the data read is not bound to a local")
-    is_len = lambda e: isinstance(e, ast.Call) and q.call_attr(e) == "len" and len(e.args) == 1 and q.dotted(e.args[0]) in vars_
-    pred = _c04.limit_pred(is_len, lambda e: q.dotted(e) == LIVE)
-    ok_e = atom_edges(cfg, pred)
-    dels = [(n, c) for n, c in cfg.find(lambda x: isinstance(x, ast.Call) and q.call_attr(x) == "data_received")]
-    ck.floor(R, len(dels), 1, "deliveries in _read_body_until_close")
-    for node, c in dels:
-        ck.ob(R, fi, c, only_through(cfg, node, ok_e), "a close-delimited body is delivered only after len(body) <= %s held (sibling readers all enforce the limit)" % LIVE)
-        ck.ob(R, fi, c, len(c.args) == 1 and q.dotted(c.args[0]) in vars_, "exactly the bytes read are delivered")
-    okr, n = leads_to_raise(cfg, _c04._over_edges(cfg, pred), _is_input_error)
-    if ok_e:
-        ck.ob(R, fi, fi.node, okr and n > 0, "a close-delimited body above the limit raises HTTPInputError", construct="close-delimited body over limit -> raise")
+    for blen, limit, admitted in ((4, 5, True), (5, 5, True), (6, 5, False), (0, 5, True), (1, 0, False)):
+        for kind, exc, delivered in fold_until_close(ck, blen, limit):
+            tag = "close-delimited body of %d bytes, live limit %d" % (blen, limit)
+            if admitted:
+                ck.ob(R, None, None, kind != "raise" and delivered == [blen], "%s: delivered unchanged (got %s)" % (tag, exc if kind == "raise" else delivered), construct="until-close %d/%d admitted" % (blen, limit), file=H1)
+            else:
+                ck.ob(R, None, None, kind == "raise" and _is_input_error(exc) and not delivered, "%s: HTTPInputError and nothing delivered — every body reader enforces the limit (got %s)" % (tag, exc if kind == "raise" else delivered), construct="until-close %d/%d refused" % (blen, limit), file=H1)
     # gzip
     gz = _c04.check_gzip(ck, LIVE, R="C08.gzip-limit")
 
-    R = "C08.gzip-drain"
-    gd = _F(ck, H1, "_GzipMessageDelegate.data_received")
-    chunk_p = [p for p in gd.params() if p != "self"][0]
-    pm = q.parent_map(gd.node)
-    decs = [c for c in q.calls(gd.node) if q.call_attr(c) == "decompress"]
-    for c in decs:
-        loop = next((a for a in q.ancestors(pm, c) if isinstance(a, ast.While)), None)
-        if loop is None or not isinstance(loop.test, ast.Name):
-            raise AnalysisError("gzip data_received: decompress() is not inside a `while <pending input>` loop")
-        V = loop.test.id
-        ck.ob(R, gd, c, c.args and q.dotted(c.args[0]) == V, "decompress() consumes the pending input")
-        re_as = [st for st in loop.body if isinstance(st, ast.Assign) and any(q.dotted(t) == V for t in st.targets)]
-        ok = len(re_as) == 1 and isinstance(re_as[0].value, ast.Attribute) and re_as[0].value.attr == "unconsumed_tail"
-        ck.ob(R, gd, loop, ok, "the loop continues with the decompressor's unconsumed_tail until the input is used up (nothing of the chunk is dropped)")
-        inits = [st for st in q.walk_body(gd.node) if isinstance(st, ast.Assign) and any(q.dotted(t) == V for t in st.targets) and st not in re_as]
-        ck.ob(R, gd, loop, len(inits) == 1 and q.dotted(inits[0].value) == chunk_p, "the pending input starts as the whole received chunk")
-        exits = [x for x in q.walk_local(loop) if isinstance(x, (ast.Break, ast.Return))]
-        ck.ob(R, gd, loop, not exits, "the loop is left only when the input is used up or an error is raised")
-    ident = [c for n, c in gd.cfg.find(lambda x: isinstance(x, ast.Call) and q.call_attr(x) == "data_received" and x.args and q.dotted(x.args[0]) == chunk_p)]
-    nodec = atom_edges(gd.cfg, lambda a: False if q.dotted(a) == "self._decompressor" else (True if (isinstance(a, ast.Compare) and isinstance(a.ops[0], ast.Is) and q.dotted(a.left) == "self._decompressor" and q.is_const(a.comparators[0], None)) else None))
-    ck.ob(R, gd, gd.node, len(ident) >= 1, "without a decompressor the chunk is forwarded unchanged", construct="identity pass-through")
-    for n, c in gd.cfg.find(lambda x: x in ident):
-        ck.ob(R, gd, c, only_through(gd.cfg, n, nodec), "the raw chunk is forwarded only when no decompressor is installed")
-
     R = "C08.gzip-finish"
     gf = _F(ck, H1, "_GzipMessageDelegate.finish")
-    cfg = gf.cfg
-    fwd = [(n, c) for n, c in cfg.find(lambda x: isinstance(x, ast.Call) and q.call_attr(x) == "finish" and (q.dotted(x.func.value) or "").startswith("self."))]
-    ck.floor(R, len(fwd), 1, "forwards of finish() in the gzip delegate")
-    flushes = [(n, c) for n, c in cfg.find(lambda x: isinstance(x, ast.Call) and q.call_attr(x) == "flush")]
-    if not flushes:
-        ck.ob(R, gf, gf.node, False, "the decompressor is flushed at finish() so that buffered/incomplete data is noticed", construct="no flush() in finish")
-    tails = {n.ast.targets[0].id for n, c in flushes if isinstance(n.ast, ast.Assign) and isinstance(n.ast.targets[0], ast.Name)}
-    nodec = atom_edges(cfg, lambda a: True if (isinstance(a, ast.Compare) and isinstance(a.ops[0], ast.Is) and (q.dotted(a.left) or "").startswith("self._decompressor") and q.is_const(a.comparators[0], None)) else (False if q.dotted(a) == "self._decompressor" else None))
-    empty = atom_edges(cfg, lambda a: False if (isinstance(a, ast.Name) and a.id in tails) else None)
-    nonempty = atom_edges(cfg, lambda a: True if (isinstance(a, ast.Name) and a.id in tails) else None)
-    for node, c in fwd:
-        ck.ob(R, gf, c, only_through(cfg, node, nodec | empty), "finish() is forwarded only if nothing was decompressing or flush() returned no further data")
-    okr, n = leads_to_raise(cfg, nonempty, lambda cls: cls is not None)
-    ck.ob(R, gf, gf.node, okr and n > 0, "left-over decompressed data at finish() is an error (not silently dropped)", construct="flush() remainder -> raise")
+    for tail in (None, b"", b"left-over"):
+        fwd = []
+
+        def fb(st, c, d, args, tail=tail, fwd=fwd):
+            nm = q.call_attr(c)
+            if nm == "flush":
+                return tail
+            if nm == "finish" and d is not None and d.startswith("self."):
+                fwd.append(True)
+                return None
+            return NotImplemented
+
+        ev = Evaluator()
+        ev.fallback = fb
+        me = Obj("self", _delegate=Obj("inner"), _decompressor=(None if tail is None else Obj("decompressor")))
+        outs = ev.run(gf.node, {"self": me})
+        if not outs:
+            raise AnalysisError("_GzipMessageDelegate.finish: no outcome")
+        for o in outs:
+            if tail:
+                ck.ob(R, gf, gf.node, o.kind == "raise" and not fwd, "data left in the decompressor at finish() is an error and finish() is not forwarded (got %s)" % (o.value if o.kind == "raise" else "forwarded"), construct="gzip finish: remainder")
+            else:
+                ck.ob(R, gf, gf.node, o.kind != "raise" and len(fwd) == 1, "finish() is forwarded exactly once when %s (got %s)" % ("no decompressor is installed" if tail is None else "flush() returns nothing", o.value if o.kind == "raise" else len(fwd)), construct="gzip finish: %s" % ("identity" if tail is None else "clean"))
 
     R = "C08.gzip-selection"
     hr = _F(ck, H1, "_GzipMessageDelegate.headers_received")
@@ -540,21 +515,69 @@ def check_client_plumbing(ck):
             got = o.state.env["self"].attrs.get("_request_start_line")
             ck.ob(R, wh, wh.node, isinstance(got, Obj) and got.attrs.get("method") == method, "the client remembers its request line (method %s) so that a response to HEAD is recognised" % method, construct="client write_headers remembers %s" % method)
     R = "C08.delivery"
-    n = 0
-    for name in ("_read_fixed_body", "_read_chunked_body", "_read_body_until_close"):
-        f = _F(ck, H1, "HTTP1Connection." + name)
-        cfg = f.cfg
-        dels = [(nd, c) for nd, c in cfg.find(lambda x: isinstance(x, ast.Call) and q.call_attr(x) == "data_received")]
-        ck.floor(R, len(dels), 1, "deliveries in %s" % name)
-        # client state while reading a response: is_client true, _write_finished true
-        dead = atom_edges(cfg, lambda a: False if q.dotted(a) == "self.is_client" else (False if q.dotted(a) == "self._write_finished" else None))
-        # an `A or B` test is split into atoms: the delivery must stay reachable when every edge that needs
-        # `not is_client` or `not _write_finished` is removed
-        r = reach_without(cfg, dead)
-        for nd, c in dels:
-            n += 1
-            ck.ob(R, f, c, nd.id in r, "in client mode body bytes are delivered although the request has been written completely (_write_finished is true)")
-    ck.floor(R, n, 3, "delivery sites")
+    # the client has finished writing its request (_write_finished) while it reads the response: every reader still delivers
+    rcb = _F(ck, H1, "HTTP1Connection._read_chunked_body")
+    for kind, exc, delivered, data_read in _c04.eval_chunked(ck, rcb, (3, 2), 100, is_client=True, write_finished=True):
+        ck.ob(R, rcb, rcb.node, kind != "raise" and delivered == 5, "client, request fully written: the chunked body is delivered (%s, %d of 5 bytes)" % (exc if kind == "raise" else kind, delivered), construct="delivery chunked")
+    for kind, exc, delivered in fold_until_close(ck, 4, 100, write_finished=True):
+        ck.ob(R, None, None, kind != "raise" and delivered == [4], "client, request fully written: the close-delimited body is delivered (got %s)" % (exc if kind == "raise" else delivered), construct="delivery until-close", file=H1)
+    for kind, exc, delivered in fold_fixed(ck, 5, write_finished=True):
+        ck.ob(R, None, None, kind != "raise" and sum(delivered) == 5, "client, request fully written: the fixed-length body is delivered completely (got %s)" % (exc if kind == "raise" else delivered), construct="delivery fixed", file=H1)
+
+
+def fold_until_close(ck, blen, limit, write_finished=True):
+    fi = _F(ck, H1, "HTTP1Connection._read_body_until_close")
+    ps = [p for p in fi.params() if p != "self"]
+    out = []
+    delivered = []
+
+    def fb(st, c, d, args):
+        nm = q.call_attr(c)
+        if nm == "read_until_close":
+            return b"b" * blen
+        if nm == "data_received":
+            delivered.append(len(args[0]) if args and isinstance(args[0], (bytes, bytearray)) else None)
+            return None
+        return NotImplemented
+
+    ev = Evaluator()
+    ev.fallback = fb
+    me = Obj("self", stream=Obj("stream", max_buffer_size=10 ** 6), is_client=True, _write_finished=write_finished, _max_body_size=limit, params=Obj("params", max_body_size=10 ** 6, chunk_size=4))
+    outs = ev.run(fi.node, dict({"self": me}, **{p: Obj("delegate") for p in ps}))
+    if not outs:
+        raise AnalysisError("_read_body_until_close: no outcome")
+    if len(outs) > 1:
+        raise AnalysisError("_read_body_until_close: outcome not decidable by folding")
+    o = outs[0]
+    if None in delivered:
+        raise AnalysisError("_read_body_until_close: delivered data not decidable")
+    return [(o.kind, o.value if o.kind == "raise" else None, list(delivered))]
+
+
+def fold_fixed(ck, length, write_finished=True):
+    fi = _F(ck, H1, "HTTP1Connection._read_fixed_body")
+    ps = [p for p in fi.params() if p != "self"]
+    delivered = []
+
+    def fb(st, c, d, args):
+        nm = q.call_attr(c)
+        if nm == "read_bytes" and args and isinstance(args[0], int):
+            got = (args[0] + 1) // 2
+            return b"x" * got
+        if nm == "data_received":
+            delivered.append(len(args[0]) if args and isinstance(args[0], (bytes, bytearray)) else None)
+            return None
+        return NotImplemented
+
+    ev = Evaluator()
+    ev.fallback = fb
+    ev.max_unroll = length + 3
+    me = Obj("self", stream=Obj("stream"), is_client=True, _write_finished=write_finished, params=Obj("params", chunk_size=4))
+    outs = ev.run(fi.node, {"self": me, ps[0]: length, ps[1]: Obj("delegate")})
+    if len(outs) != 1 or None in delivered:
+        raise AnalysisError("_read_fixed_body: outcome not decidable by folding")
+    o = outs[0]
+    return [(o.kind, o.value if o.kind == "raise" else None, list(delivered))]
 
 
 def check_assembly(ck):
@@ -670,7 +693,7 @@ def check_assembly(ck):
     ck.floor(R, len(pc), 1, "HTTP1ConnectionParameters constructions in the client")
     for c in pc:
         for k, src in (("max_header_size", "self.max_header_size"), ("max_body_size", "self.max_body_size")):
-            ck.ob(R, cc, c, q.dotted(q.kwarg(c, k)) == src, "the client's %s reaches the connection" % k, construct="%s=%s" % (k, src))
+            ck.ob(R, cc, c, q.dotted(_c04._x(cc, q.kwarg(c, k))) == src, "the client's %s reaches the connection" % k, construct="%s=%s" % (k, src))
         d = q.kwarg(c, "decompress")
         ck.ob(R, cc, c, d is not None and "decompress_response" in q.unparse(d), "decompression follows request.decompress_response", construct="decompress")
 
@@ -685,8 +708,7 @@ def run(ck):
     ck.rule("C08.bodiless-agreement", "write_headers' zero-length set equals the client's no-body set")
     ck.rule("C08.delivery", "every body reader delivers to the delegate in client mode regardless of _write_finished")
     ck.rule("C08.reader-limit", "every body reader (fixed, chunked, read-until-close) compares with the live _max_body_size before delivering")
-    ck.rule("C08.gzip-limit", "gzip: bounded decompress, cumulative decompressed size compared with the limit before forwarding")
-    ck.rule("C08.gzip-drain", "gzip: every received chunk is decompressed completely (loop on unconsumed_tail); identity content is forwarded unchanged")
+    ck.rule("C08.gzip-limit", "gzip (folded on a stub decompressor): bounded decompress, every chunk drained through unconsumed_tail, pieces forwarded only while the cumulative inflated size is within the limit, identity content forwarded unchanged")
     ck.rule("C08.gzip-finish", "gzip: finish() is forwarded only if flush() left nothing; a remainder is an error")
     ck.rule("C08.gzip-selection", "gzip: decompressor iff Content-Encoding == gzip (case-insensitive); header renamed; headers forwarded")
     ck.rule("C08.assembly", "simple_httpclient: chunks appended/streamed unchanged, body = concatenation, code/headers of the final response")
@@ -847,8 +869,8 @@ MUTANTS = [
     ("close-delimited body limit checked after delivery", _m(H1, "HTTP1Connection._read_body_until_close", _limit_after_delivery), "C08.reader-limit"),
     ("close-delimited body compared with max_buffer_size", _m(H1, "HTTP1Connection._read_body_until_close", replace_expr(lambda n: isinstance(n, ast.Attribute) and _u(n) == "self._max_body_size", lambda n: parse_expr("self.stream.max_buffer_size"))), "C08.reader-limit"),
     ("chunked reader: total limit removed", _m(H1, "HTTP1Connection._read_chunked_body", remove_stmts(_if_raise("total_size"))), "C08.reader-limit"),
-    ("gzip: only the first max_length piece of each chunk is decompressed (rest dropped)", _m(H1, "_GzipMessageDelegate.data_received", replace_stmt(lambda st: isinstance(st, ast.Assign) and "unconsumed_tail" in _u(st), lambda st: [parse_stmt('compressed_data = b""')])), "C08.gzip-drain"),
-    ("gzip: identity responses also run through a forward of an empty chunk", _m(H1, "_GzipMessageDelegate.data_received", _identity_empty), "C08.gzip-drain"),
+    ("gzip: only the first max_length piece of each chunk is decompressed (rest dropped)", _m(H1, "_GzipMessageDelegate.data_received", replace_stmt(lambda st: isinstance(st, ast.Assign) and "unconsumed_tail" in _u(st), lambda st: [parse_stmt('compressed_data = b""')])), "C08.gzip-limit"),
+    ("gzip: identity responses also run through a forward of an empty chunk", _m(H1, "_GzipMessageDelegate.data_received", _identity_empty), "C08.gzip-limit"),
     ("repeated response header replaces the earlier one (last Content-Length wins)", _m(HU, "HTTPHeaders.add", replace_expr(lambda n: isinstance(n, ast.Compare) and _u(n) == "norm_name in self", lambda n: ast.Constant(value=False))), "C08.duplicate-fields-kept"),
     ("gzip: size check removed", _m(H1, "_GzipMessageDelegate.data_received", remove_stmts(_if_raise("_decompressed_body_size"))), "C08.gzip-limit"),
     ("gzip: flush() remainder ignored", _m(H1, "_GzipMessageDelegate.finish", remove_stmts(lambda st: isinstance(st, ast.If) and _u(st.test) == "tail")), "C08.gzip-finish"),
